@@ -124,6 +124,7 @@ type c11Job struct {
 	From   int
 	To     int
 	Two    bool
+	Three  bool // every ordered three-operation batch as well (thorough)
 }
 
 type c11Env struct {
@@ -294,6 +295,11 @@ func c11Exec(j *mc.Job) *mc.JobResult {
 			if cj.Two {
 				for _, b := range ops {
 					runBatch(st, []c11Op{a, b})
+					if cj.Three {
+						for _, c := range ops {
+							runBatch(st, []c11Op{a, b, c})
+						}
+					}
 				}
 			}
 		}
@@ -481,15 +487,18 @@ func init() {
 	mc.Register(&mc.Property{
 		ID:     "C11",
 		Level:  "model_checking",
-		Rule:   "explicit-state search with a sorted map as reference model: all 27 states of 3 keys x {absent,x,y}; from every state every single-operation batch (put-if-absent, CAS x 3 expectations incl. a missing key, put, delete), every ordered two-operation batch, Get, Del, DelCurrent through a fresh and a stale iterator (direct and inside a batch), every iterator (start,end) over 7 positions in both directions with limits 0..2 - and again over 9 positions including proper prefixes of stored keys with a stored key that extends another one added -, and the snapshot test (iterator opened, advanced, each batch committed, drained); on memkv, badger, tikv-mock and each behind the metrics wrapper; result class and full contents compared after every transition",
+		Rule:   "explicit-state search with a sorted map as reference model: all 27 states of 3 keys x {absent,x,y}; from every state every single-operation batch (put-if-absent, CAS x 3 expectations incl. a missing key, put, delete), every ordered two-operation batch (thorough: every ordered three-operation batch as well), Get, Del, DelCurrent through a fresh and a stale iterator (direct and inside a batch), every iterator (start,end) over 7 positions in both directions with limits 0..2 - and again over 9 positions including proper prefixes of stored keys with a stored key that extends another one added -, and the snapshot test (iterator opened, advanced, each batch committed, drained); on memkv, badger, tikv-mock and each behind the metrics wrapper; result class and full contents compared after every transition",
 		Assume: []string{"sequential use of one engine instance; engines run free (no scheduler)", "TTL arguments are 0"},
 		Exec:   c11Exec,
 		Drive: func(c *mc.Ctx) {
 			two := true // every ordered two-operation batch in both tiers (6 s)
 			for _, eng := range c11Engines {
 				step := 3
+				if c.Tier == "thorough" {
+					step = 1
+				}
 				for from := 0; from < 27; from += step {
-					e, _ := json.Marshal(c11Job{eng, from, from + step, two})
+					e, _ := json.Marshal(c11Job{eng, from, from + step, two, c.Tier == "thorough"})
 					c.Pool.Submit(mc.Job{Prop: "C11", Kind: "contract", Tier: c.Tier, Extra: e}, func(j mc.Job, r *mc.JobResult) { c.Agg.Add(j, r) })
 				}
 			}
